@@ -53,7 +53,7 @@ MOF = 'pywbem/_mof_compiler.py'
 MOCKMOF = 'pywbem_mock/_mockmofwbemconnection.py'
 
 
-def _r13_names_compared_caselessly(repo, rep):
+def _r13_names_compared_caselessly(repo, rep, rid='C09.R13'):
     """C09.R13: the compiler compares CIM names (class names, reference
     classes, superclasses) without regard to lexical case, like the
     repositories, NocaseList and find_mof() it works with.  The dependency
@@ -64,15 +64,15 @@ def _r13_names_compared_caselessly(repo, rep):
     file being compiled, compile_file() re-enters it, and the compile ends
     in RecursionError instead of terminating with a MOFCompileError."""
     from .. import names
-    r13 = rep.rule('C09.R13', 'CIM names are compared case-insensitively in '
+    r13 = rep.rule(rid, 'CIM names are compared case-insensitively in '
                    'the MOF compiler')
-    r13b = rep.rule('C09.R13b', 'no uncalled string method in a comparison '
+    r13b = rep.rule(rid + 'b', 'no uncalled string method in a comparison '
                     '(MOF compiler)')
     names.run_name_rules(repo, rep, r13, r13b, lambda f: f.file == MOF,
                          modules=[MOF], api_classes=())
     if r13.sites < 3:
-        raise AnalysisError('C09.R13: only %d name comparisons found in the '
-                            'MOF compiler' % r13.sites)
+        raise AnalysisError('%s: only %d name comparisons found in the '
+                            'MOF compiler' % (rid, r13.sites))
 
 
 def run(repo, rep, tier):
@@ -88,6 +88,16 @@ def run(repo, rep, tier):
     r6 = rep.rule('C09.R6', 'per-compile parser state is re-initialised by every '
                   'entry point or reset in a finally')
     _r13_names_compared_caselessly(repo, rep)
+    # an action that takes the wrong p[i] for an alternative (a literal
+    # token instead of the list that follows it) fails with AttributeError /
+    # TypeError on valid MOF: every value-carrying symbol of every
+    # alternative is read by the action
+    from .c08 import _r8_symbols_consumed
+    _r8_symbols_consumed(repo, rep, 'C09.R14', exempt={
+        ('p_instanceDeclaration', 'qualifierList'):
+        'the qualifier list of `instance of` is dropped on purpose '
+        '(commented in the action); nothing reads it later, so no '
+        'exception can come of it (the loss itself is the C08 finding)'})
     _r9_cache_after_commit(repo, rep)
     _r10_reported_file_is_opened_file(repo, rep)
     _r11_cache_key_is_target_namespace(repo, rep)
